@@ -5,6 +5,7 @@ namespace MpfVerif.Mode
 def Op.target : Op → Nat
   | .start m _ _ _ => m | .started m => m | .startedCb m => m | .stop m => m | .stopped m => m | .stoppedCb m => m
   | .addH m _ => m | .addSw m _ => m | .addDl m _ => m | .fireDl m _ => m | .turnEnd m => m
+  | .cfgPlay m _ => m | .cfgSub m _ _ => m | .addTm m _ => m | .fireTm m _ => m | .remTm m _ => m
 
 def evIdx : Ev → Nat
   | .ws => 0 | .sg => 1 | .sd => 2 | .wp => 3 | .pg => 4 | .pd => 5
@@ -490,6 +491,32 @@ theorem step_inv (st st' : St) (op : Op) (hI : Inv st) (h : step st op = some st
         · exact hturn e he hc
         · rw [he]; exact hs
     · cases h
+  | cfgPlay m id =>
+    simp only [step] at h
+    split at h <;> cases h <;> exact ⟨hexcl, hstop, hmem, hsorted, hcfg, hlife, hturn⟩
+  | cfgSub m id on =>
+    simp only [step] at h
+    split at h
+    · cases h
+    · split at h
+      · cases h; exact ⟨hexcl, hstop, hmem, hsorted, hcfg, hlife, hturn⟩
+      · split at h
+        · split at h <;> cases h <;> exact ⟨hexcl, hstop, hmem, hsorted, hcfg, hlife, hturn⟩
+        · cases h; exact ⟨hexcl, hstop, hmem, hsorted, hcfg, hlife, hturn⟩
+  | addTm m id =>
+    simp only [step] at h
+    split at h
+    · cases h; exact ⟨hexcl, hstop, hmem, hsorted, hcfg, hlife, hturn⟩
+    · cases h
+  | fireTm m id =>
+    simp only [step] at h
+    split at h
+    · cases h; exact ⟨hexcl, hstop, hmem, hsorted, hcfg, hlife, hturn⟩
+    · cases h
+  | remTm m id =>
+    simp only [step, Option.some.injEq] at h
+    cases h
+    exact ⟨hexcl, hstop, hmem, hsorted, hcfg, hlife, hturn⟩
 
 theorem run_inv (st : St) (ops : List Op) (hI : Inv st) : Inv (run st ops) := by
   induction ops generalizing st with
@@ -610,6 +637,32 @@ theorem step_frame (st st' : St) (op : Op) (h : step st op = some st') :
     · cases h
       simp [Op.target, List.filter_append]
     · cases h
+  | cfgPlay m id =>
+    simp only [step] at h
+    split at h <;> cases h <;> exact ⟨rfl, rfl, rfl⟩
+  | cfgSub m id on =>
+    simp only [step] at h
+    split at h
+    · cases h
+    · split at h
+      · cases h; exact ⟨rfl, rfl, rfl⟩
+      · split at h
+        · split at h <;> cases h <;> exact ⟨rfl, rfl, rfl⟩
+        · cases h; exact ⟨rfl, rfl, rfl⟩
+  | addTm m id =>
+    simp only [step] at h
+    split at h
+    · cases h; exact ⟨rfl, rfl, rfl⟩
+    · cases h
+  | fireTm m id =>
+    simp only [step] at h
+    split at h
+    · cases h; exact ⟨rfl, rfl, rfl⟩
+    · cases h
+  | remTm m id =>
+    simp only [step, Option.some.injEq] at h
+    cases h
+    exact ⟨rfl, rfl, rfl⟩
 
 theorem run_frame (st : St) (ops : List Op) (m : Nat) (ht : ∀ op ∈ ops, op.target = m) :
     (run st ops).bus.filter (fun e => e.owner != m) = st.bus.filter (fun e => e.owner != m) ∧
@@ -638,6 +691,7 @@ theorem step_cfg (st st' : St) (op : Op) (h : step st op = some st') : st'.cfg =
   cases op <;> simp only [step] at h
   case start => split at h <;> cases h <;> simp [startCore, cleanup_cfg]
   case stoppedCb => split at h <;> cases h; simp [cbCore, cleanup_cfg]
+  case cfgSub => (repeat' split at h) <;> cases h <;> rfl
   all_goals (first | (split at h <;> cases h <;> rfl) | (cases h; rfl))
 
 theorem run_cfg (st : St) (ops : List Op) : (run st ops).cfg = st.cfg := by
@@ -648,5 +702,266 @@ theorem run_cfg (st : St) (ops : List Op) : (run st ops).cfg = st.cfg := by
     cases hs : step st op with
     | none => simpa using ih st
     | some st' => simpa using (ih st').trans (step_cfg st st' op hs)
+
+/-! ## the registries of config-player effects (`fx`) and of device-owned timers (`tm`) -/
+
+structure Inv2 (st : St) : Prop where
+  fxOwned : ∀ e ∈ st.fx, up (st.modes e.owner) = true
+  tmOwned : ∀ e ∈ st.tm, alive (st.modes e.owner) = true
+
+theorem inv2_init (cfg : Nat → Cfg) : Inv2 (init cfg) := by
+  constructor <;> simp [init]
+
+/-- a predicate on the owner's flags survives an update of mode `m` when no entry belongs to `m` or the new flags satisfy it -/
+theorem pred_upd (P : MState → Bool) (f : Nat → MState) (m : Nat) (ms' : MState) (l : List Ent)
+    (h : ∀ e ∈ l, P (f e.owner) = true) (hm : (∀ e ∈ l, e.owner ≠ m) ∨ (P (f m) = true → P ms' = true)) :
+    ∀ e ∈ l, P (upd f m ms' e.owner) = true := by
+  intro e he
+  by_cases ho : e.owner = m
+  · rcases hm with hm | hm
+    · exact absurd ho (hm e he)
+    · have := h e he
+      rw [ho] at this ⊢
+      simpa using hm this
+  · rw [upd_other _ _ _ _ ho]; exact h e he
+
+theorem not_owned_of_filter (l : List Ent) (m : Nat) : ∀ e ∈ l.filter (fun e => !ownedBy m e), e.owner ≠ m := by
+  intro e he ho
+  have := (List.mem_filter.mp he).2
+  simp [ownedBy, ho] at this
+
+theorem cleanup_inv2 (st : St) (m : Nat) (h2 : Inv2 st) : Inv2 (cleanup st m) := by
+  obtain ⟨hfx, htm⟩ := h2
+  unfold cleanup
+  split
+  · refine ⟨?_, ?_⟩ <;> dsimp only
+    · exact pred_upd up st.modes m _ st.fx hfx (Or.inr (by simp [up]))
+    · exact pred_upd alive st.modes m _ _ (fun e he => htm e (List.mem_filter.mp he).1) (Or.inl (not_owned_of_filter st.tm m))
+  · exact ⟨hfx, htm⟩
+
+theorem step_inv2 (st st' : St) (op : Op) (h2 : Inv2 st) (h : step st op = some st') : Inv2 st' := by
+  obtain ⟨hfx, htm⟩ := h2
+  cases op with
+  | start m prio queue gameOk =>
+    simp only [step] at h
+    split at h
+    · cases h; exact ⟨hfx, htm⟩
+    · cases h
+      obtain ⟨cfx, ctm⟩ := cleanup_inv2 st m ⟨hfx, htm⟩
+      unfold startCore
+      refine ⟨?_, ?_⟩ <;> dsimp only
+      · exact pred_upd up _ m _ _ cfx (Or.inr (by simp [up]))
+      · exact pred_upd alive _ m _ _ ctm (Or.inr (by simp [alive]))
+  | started m =>
+    simp only [step] at h
+    split at h
+    · cases h
+    · cases h
+      exact ⟨pred_upd up _ m _ _ hfx (Or.inr (by simp [up])), pred_upd alive _ m _ _ htm (Or.inr (by simp [alive]))⟩
+  | startedCb m =>
+    simp only [step] at h
+    split at h
+    · cases h
+    · cases h
+      exact ⟨pred_upd up _ m _ _ hfx (Or.inr (by simp [up])), pred_upd alive _ m _ _ htm (Or.inr (by simp [alive]))⟩
+  | stop m =>
+    simp only [step] at h
+    split at h
+    · cases h; exact ⟨hfx, htm⟩
+    · cases h
+      exact ⟨pred_upd up _ m _ _ hfx (Or.inr (by simp [up])), pred_upd alive _ m _ _ htm (Or.inr (by simp [alive]))⟩
+  | stopped m =>
+    simp only [step] at h
+    split at h
+    · cases h
+    · cases h
+      refine ⟨?_, ?_⟩ <;> dsimp only
+      · exact pred_upd up _ m _ _ (fun e he => hfx e (List.mem_filter.mp he).1) (Or.inl (not_owned_of_filter st.fx m))
+      · exact pred_upd alive _ m _ _ htm (Or.inr (by simp [alive]))
+  | stoppedCb m =>
+    simp only [step] at h
+    split at h
+    · cases h
+    · cases h
+      obtain ⟨cfx, ctm⟩ := cleanup_inv2 st m ⟨hfx, htm⟩
+      unfold cbCore
+      exact ⟨pred_upd up _ m _ _ cfx (Or.inr (by simp [up])), pred_upd alive _ m _ _ ctm (Or.inr (by simp [alive]))⟩
+  | addH m id => simp only [step, Option.some.injEq] at h; cases h; exact ⟨hfx, htm⟩
+  | addSw m id => simp only [step, Option.some.injEq] at h; cases h; exact ⟨hfx, htm⟩
+  | addDl m id => simp only [step, Option.some.injEq] at h; cases h; exact ⟨hfx, htm⟩
+  | fireDl m id =>
+    simp only [step] at h
+    split at h
+    · cases h; exact ⟨hfx, htm⟩
+    · cases h
+  | turnEnd m =>
+    simp only [step] at h
+    split at h
+    · cases h; exact ⟨hfx, htm⟩
+    · cases h
+  | cfgPlay m id =>
+    simp only [step] at h
+    split at h
+    · rename_i hg
+      cases h
+      refine ⟨?_, htm⟩
+      intro e he
+      simp only [List.mem_append, List.mem_singleton] at he
+      rcases he with he | he
+      · exact hfx e he
+      · rw [he]; simp only [Bool.and_eq_true] at hg; simp [up, hg.1.1]
+    · cases h; exact ⟨hfx, htm⟩
+  | cfgSub m id on =>
+    simp only [step] at h
+    split at h
+    · cases h
+    · rename_i hg
+      have hu : up (st.modes m) = true := by simpa using hg
+      split at h
+      · cases h; exact ⟨hfx, htm⟩
+      · split at h
+        · split at h
+          · cases h; exact ⟨hfx, htm⟩
+          · cases h
+            refine ⟨?_, htm⟩
+            intro e he
+            simp only [List.mem_append, List.mem_singleton] at he
+            rcases he with he | he
+            · exact hfx e he
+            · rw [he]; exact hu
+        · cases h
+          exact ⟨fun e he => hfx e (List.mem_filter.mp he).1, htm⟩
+  | addTm m id =>
+    simp only [step] at h
+    split at h
+    · rename_i hg
+      cases h
+      refine ⟨hfx, ?_⟩
+      intro e he
+      simp only [List.mem_append, List.mem_singleton] at he
+      rcases he with he | he
+      · exact htm e he
+      · rw [he]; exact hg
+    · cases h
+  | fireTm m id =>
+    simp only [step] at h
+    split at h
+    · cases h; exact ⟨hfx, fun e he => htm e (List.mem_filter.mp he).1⟩
+    · cases h
+  | remTm m id =>
+    simp only [step, Option.some.injEq] at h
+    cases h
+    exact ⟨hfx, fun e he => htm e (List.mem_filter.mp he).1⟩
+
+theorem run_inv2 (st : St) (ops : List Op) (h2 : Inv2 st) : Inv2 (run st ops) := by
+  induction ops generalizing st with
+  | nil => exact h2
+  | cons op r ih =>
+    simp only [run]
+    cases hs : step st op with
+    | none => simpa using ih st h2
+    | some st' => simpa using ih st' (step_inv2 st st' op h2 hs)
+
+/-- frame for the two new registries -/
+theorem step_frame2 (st st' : St) (op : Op) (h : step st op = some st') :
+    st'.fx.filter (fun e => e.owner != op.target) = st.fx.filter (fun e => e.owner != op.target) ∧
+    st'.tm.filter (fun e => e.owner != op.target) = st.tm.filter (fun e => e.owner != op.target) := by
+  have hcl : ∀ m, (cleanup st m).fx = st.fx ∧
+      (cleanup st m).tm.filter (fun e => e.owner != m) = st.tm.filter (fun e => e.owner != m) := by
+    intro m
+    unfold cleanup
+    split
+    · refine ⟨rfl, ?_⟩
+      dsimp only; apply filter_other_filter; intro e he; simp [ownedBy, he]
+    · exact ⟨rfl, rfl⟩
+  cases op with
+  | start m prio queue gameOk =>
+    simp only [step] at h
+    split at h
+    · cases h; exact ⟨rfl, rfl⟩
+    · cases h
+      simp only [startCore, Op.target]
+      exact ⟨by rw [(hcl m).1], (hcl m).2⟩
+  | started m => simp only [step] at h; split at h <;> cases h; exact ⟨rfl, rfl⟩
+  | startedCb m => simp only [step] at h; split at h <;> cases h; exact ⟨rfl, rfl⟩
+  | stop m => simp only [step] at h; split at h <;> cases h <;> exact ⟨rfl, rfl⟩
+  | stopped m =>
+    simp only [step] at h
+    split at h
+    · cases h
+    · cases h
+      refine ⟨?_, rfl⟩
+      dsimp only [Op.target]; apply filter_other_filter; intro e he; simp [ownedBy, he]
+  | stoppedCb m =>
+    simp only [step] at h
+    split at h
+    · cases h
+    · cases h
+      simp only [cbCore, Op.target]
+      exact ⟨by rw [(hcl m).1], (hcl m).2⟩
+  | addH m id => simp only [step, Option.some.injEq] at h; cases h; exact ⟨rfl, rfl⟩
+  | addSw m id => simp only [step, Option.some.injEq] at h; cases h; exact ⟨rfl, rfl⟩
+  | addDl m id => simp only [step, Option.some.injEq] at h; cases h; exact ⟨rfl, rfl⟩
+  | fireDl m id => simp only [step] at h; split at h <;> cases h; exact ⟨rfl, rfl⟩
+  | turnEnd m => simp only [step] at h; split at h <;> cases h; exact ⟨rfl, rfl⟩
+  | cfgPlay m id =>
+    simp only [step] at h
+    split at h
+    · cases h; simp [Op.target, List.filter_append]
+    · cases h; exact ⟨rfl, rfl⟩
+  | cfgSub m id on =>
+    simp only [step] at h
+    split at h
+    · cases h
+    · split at h
+      · cases h; exact ⟨rfl, rfl⟩
+      · split at h
+        · split at h
+          · cases h; exact ⟨rfl, rfl⟩
+          · cases h; simp [Op.target, List.filter_append]
+        · cases h
+          refine ⟨?_, rfl⟩
+          dsimp only [Op.target]; apply filter_other_filter; intro e he
+          simp only [bne_iff_ne, ne_eq]
+          intro heq; rw [heq] at he; exact he rfl
+  | addTm m id =>
+    simp only [step] at h
+    split at h
+    · cases h; simp [Op.target, List.filter_append]
+    · cases h
+  | fireTm m id =>
+    simp only [step] at h
+    split at h
+    · cases h
+      refine ⟨rfl, ?_⟩
+      dsimp only [Op.target]; apply filter_other_filter; intro e he
+      simp only [bne_iff_ne, ne_eq]
+      intro heq; rw [heq] at he; exact he rfl
+    · cases h
+  | remTm m id =>
+    simp only [step, Option.some.injEq] at h
+    cases h
+    refine ⟨rfl, ?_⟩
+    dsimp only [Op.target]; apply filter_other_filter; intro e he
+    simp only [bne_iff_ne, ne_eq]
+    intro heq; rw [heq] at he; exact he rfl
+
+theorem run_frame2 (st : St) (ops : List Op) (m : Nat) (ht : ∀ op ∈ ops, op.target = m) :
+    (run st ops).fx.filter (fun e => e.owner != m) = st.fx.filter (fun e => e.owner != m) ∧
+    (run st ops).tm.filter (fun e => e.owner != m) = st.tm.filter (fun e => e.owner != m) := by
+  induction ops generalizing st with
+  | nil => exact ⟨rfl, rfl⟩
+  | cons op r ih =>
+    simp only [run]
+    have ht' : ∀ o ∈ r, o.target = m := fun o ho => ht o (by simp [ho])
+    have hm : op.target = m := ht op (by simp)
+    cases hs : step st op with
+    | none => simpa using ih st ht'
+    | some st' =>
+      obtain ⟨a, b⟩ := step_frame2 st st' op hs
+      rw [hm] at a b
+      obtain ⟨a', b'⟩ := ih st' ht'
+      simp only [Option.getD_some]
+      exact ⟨a'.trans a, b'.trans b⟩
 
 end MpfVerif.Mode
